@@ -24,7 +24,7 @@ class Gen:
     def __init__(self, rnd: random.Random, opts: dict | None = None):
         self.rnd = rnd
         self.opts = dict(classes=True, loops=True, lists=True, strs=True, floats=True, ternary=True, bitwise=True,
-                         chains=False, enums=True, dicts=True, depth=3)
+                         chains=False, enums=True, dicts=True, depth=3, ext=False, lit_concat=False)
         if opts:
             self.opts.update(opts)
         self.constructs: dict[str, int] = {}
@@ -93,7 +93,7 @@ class Gen:
                 return '%s %s %s' % (self.expr(INT, env, d - 1), op, self.expr(INT, env, d - 1))
             if k < .72 and self.opts['bitwise']:
                 self.use('shift')
-                return '%s %s %s' % (self.operand(INT, env, 0, 'mul'), r.choice(['<<', '>>']), r.choice(['1', '2', '3']))
+                return '(%s %s %s)' % (self.operand(INT, env, 0, 'mul'), r.choice(['<<', '>>']), r.choice(['1', '2', '3']))
             if k < .8:
                 self.use('mod')
                 return '(%s & 255) %% %s' % (self.expr(INT, env, d - 1), r.choice(['3', '7', '10']))
@@ -134,7 +134,11 @@ class Gen:
             k = r.random()
             if k < .5:
                 self.use('strcat')
-                return '%s + %s' % (self.expr(STR, env, d - 1), self.atom(STR, env))
+                left, right = self.expr(STR, env, d - 1), self.atom(STR, env)
+                if not self.opts['lit_concat'] and left[:1] in '\'"' and right[:1] in '\'"':
+                    svars = [v for v, vt in env.items() if vt == STR]
+                    left = self.rnd.choice(svars) if svars else 'str(%s)' % self.atom(INT, env)
+                return '%s + %s' % (left, right)
             if k < .7:
                 self.use('str_cast')
                 return 'str(%s)' % self.expr(INT, env, d - 1)
@@ -240,6 +244,8 @@ class Gen:
                     it = self.fresh('it')
                     out.append('%sfor %s in %s:' % (ind, it, v))
                     out.extend(self.block({**env, it: INT}, ret, d - 1, ind + '\t', True))
+            elif k < .9 and self.opts['ext'] and r.random() < .75:
+                out.extend(self.ext_stmt(env, ind, d))
             elif k < .9 and in_loop:
                 self.use('break_continue')
                 out.append('%sif %s:' % (ind, self.expr(BOOL, env, 1)))
@@ -271,6 +277,117 @@ class Gen:
         if not out:
             self.use('pass')
             out.append('%spass' % ind)
+        return out
+
+    # ---- extended statements (opts['ext']): each one ends by binding a fresh int variable ----------
+    def int_atoms(self, env, n):
+        cands = [v for v, vt in env.items() if vt == INT]
+        return [self.rnd.choice(cands) if cands else self.lit(INT) for _ in range(n)]
+
+    def ext_stmt(self, env: dict[str, str], ind: str, d: int) -> list[str]:
+        r = self.rnd
+        kind = r.choice(['closure', 'closure', 'lambda_arg', 'lambda_iife', 'dict', 'dict_loop', 'dict_comp', 'tuple', 'enumerate', 'list_ops', 'casts', 'try', 'nested', 'list_comp', 'default_arg', 'str_ops'])
+        self.use('ext_' + kind)
+        out: list[str] = []
+        v = self.fresh('x')
+        e1, e2 = self.expr(INT, env, 1), self.expr(INT, env, 1)
+        if kind == 'closure':
+            f = self.fresh('inner')
+            q = self.fresh('q')
+            caps = self.int_atoms(env, r.randint(2, 3))
+            out.append('%sdef %s(%s: int) -> int:' % (ind, f, q))
+            out.append('%s\treturn %s %s %s' % (ind, q, r.choice(['+', '-']), ' + '.join(caps)))
+            out.append('%s%s = %s(%s)' % (ind, v, f, e1))
+        elif kind == 'lambda_arg':
+            self.need_ap1 = True
+            q = self.fresh('q')
+            caps = self.int_atoms(env, 2)
+            out.append('%s%s = ap1(lambda %s: %s * %s + %s, %s)' % (ind, v, q, q, caps[0], caps[1], e1))
+        elif kind == 'lambda_iife':
+            q = self.fresh('q')
+            caps = self.int_atoms(env, 2)
+            out.append('%s%s = (lambda %s: %s + %s - %s)(%s)' % (ind, v, q, q, caps[0], caps[1], e1))
+        elif kind in ('dict', 'dict_loop', 'dict_comp'):
+            dn = self.fresh('d')
+            out.append("%s%s = {'x': %s, 'y': %s}" % (ind, dn, e1, e2))
+            if r.random() < .6:
+                out.append("%s%s['z'] = %s" % (ind, dn, self.expr(INT, env, 1)))
+            if kind == 'dict':
+                form = r.choice(["%s['x'] + len(%s)", "%s.get('y', 0) + len(%s)", "(1 if 'z' in %s else 0) + %s['y']"])
+                out.append('%s%s = %s' % (ind, v, form % (dn, dn)))
+            elif kind == 'dict_loop':
+                out.append('%s%s = 0' % (ind, v))
+                k2, v2 = self.fresh('k'), self.fresh('w')
+                m = r.random()
+                if m < .4:
+                    out.append('%sfor %s, %s in %s.items():' % (ind, k2, v2, dn))
+                    out.append('%s\t%s += %s + len(%s)' % (ind, v, v2, k2))
+                elif m < .7:
+                    out.append('%sfor %s in %s.values():' % (ind, v2, dn))
+                    out.append('%s\t%s += %s' % (ind, v, v2))
+                else:
+                    out.append('%sfor %s in %s.keys():' % (ind, k2, dn))
+                    out.append('%s\t%s += len(%s)' % (ind, v, k2))
+            else:
+                d2, k2, v2 = self.fresh('d'), self.fresh('k'), self.fresh('w')
+                out.append('%s%s = {%s: %s + 1 for %s, %s in %s.items()}' % (ind, d2, k2, v2, k2, v2, dn))
+                out.append("%s%s = %s['x'] + %s['y']" % (ind, v, d2, d2))
+        elif kind == 'tuple':
+            t, u, w = self.fresh('t'), self.fresh('u'), self.fresh('s')
+            out.append('%s%s = (%s, %s)' % (ind, t, e1, self.atom(STR, env)))
+            out.append('%s%s, %s = %s' % (ind, u, w, t))
+            out.append('%s%s = %s + len(%s) + %s[0]' % (ind, v, u, w, t))
+        elif kind == 'enumerate':
+            xs, i, x = self.fresh('xs'), self.fresh('i'), self.fresh('e')
+            out.append('%s%s = [%s, %s, %s]' % (ind, xs, e1, e2, self.lit(INT)))
+            out.append('%s%s = 0' % (ind, v))
+            out.append('%sfor %s, %s in enumerate(%s):' % (ind, i, x, xs))
+            out.append('%s\t%s += %s * %s' % (ind, v, i, x))
+        elif kind == 'list_ops':
+            xs, zs = self.fresh('xs'), self.fresh('zs')
+            out.append('%s%s = [%s, %s, %s]' % (ind, xs, e1, e2, self.lit(INT)))
+            m = r.random()
+            if m < .3:
+                out.append('%s%s = %s[1:]' % (ind, zs, xs))
+                out.append('%s%s = len(%s) + %s[0]' % (ind, v, zs, zs))
+            elif m < .55:
+                out.append('%s%s = %s.pop() + len(%s)' % (ind, v, xs, xs))
+            elif m < .8:
+                out.append('%s%s.insert(0, %s)' % (ind, xs, self.lit(INT)))
+                out.append('%s%s = %s[0] + %s[3]' % (ind, v, xs, xs))
+            else:
+                out.append('%s%s = 1 if %s in %s else 0' % (ind, v, self.int_atoms(env, 1)[0], xs))
+        elif kind == 'casts':
+            out.append("%s%s = int(%s) + int('%d') + int(float(%s))" % (ind, v, r.choice(['2.5', '0.5', '7.0']), r.choice([0, 12, 305]), self.int_atoms(env, 1)[0]))
+        elif kind == 'try':
+            ex = self.fresh('ex')
+            out.append('%s%s = 0' % (ind, v))
+            out.append('%stry:' % ind)
+            out.append('%s\tif %s:' % (ind, self.expr(BOOL, env, 1)))
+            out.append("%s\t\traise RuntimeError('%s')" % (ind, r.choice(['bad', 'too big'])))
+            out.append('%s\t%s += 1' % (ind, v))
+            out.append('%sexcept RuntimeError as %s:' % (ind, ex))
+            out.append('%s\t%s += 100' % (ind, v))
+        elif kind == 'nested':
+            m = self.fresh('m')
+            out.append("%s%s = {'k': [%s, %s]}" % (ind, m, e1, e2))
+            out.append("%s%s = %s['k'][1] + len(%s['k'])" % (ind, v, m, m))
+        elif kind == 'list_comp':
+            xs, ys, x = self.fresh('xs'), self.fresh('ys'), self.fresh('e')
+            out.append('%s%s = [%s, %s, %s]' % (ind, xs, e1, e2, self.lit(INT)))
+            out.append('%s%s = [%s * 2 for %s in %s if %s > 1]' % (ind, ys, x, x, xs, x))
+            out.append('%s%s = len(%s)' % (ind, v, ys))
+        elif kind == 'default_arg':
+            self.need_dflt = True
+            out.append('%s%s = dflt(%s) + dflt(%s, %s)' % (ind, v, e1, e2, self.lit(INT)))
+        else:
+            sv = self.atom(STR, env)
+            if sv[:1] in '\'"':
+                t = self.fresh('s')
+                out.append('%s%s: str = %s' % (ind, t, sv))
+                sv = t
+            out.append("%s%s = len(%s) + len(str(%s) + %s) + (1 if len(%s) > %s else 0)" % (ind, v, sv, e1, sv, sv, self.lit(INT)))
+        env[v] = INT
         return out
 
     def function(self, ind: str = '', name: str | None = None, self_fields: dict[str, str] | None = None) -> list[str]:
@@ -367,6 +484,14 @@ class Gen:
             c = self.classes[-1]
             for mname, params, rt in c['methods']:
                 entries.append(('%s(%s).%s' % (c['name'], ', '.join(self.lit(t) for _, t in c['cparams']), mname), self.args_for(params), rt))
+        head: list[str] = []
+        if getattr(self, 'need_ap1', False):
+            head += ['from collections.abc import Callable', '', 'def ap1(fn: Callable[[int], int], v: int) -> int:', '\treturn fn(v)', '']
+        if getattr(self, 'need_dflt', False):
+            head += ['def dflt(a: int, b: int = 3) -> int:', '\treturn a * 2 - b', '']
+        if head:
+            at = max([i for i, l in enumerate(lines) if l.startswith(('from ', 'import '))] + [-1]) + 1
+            lines[at:at] = ([''] if at else []) + head
         return Program('\n'.join(lines) + '\n', entries, dict(self.constructs), list(self.names))
 
 
